@@ -6,7 +6,7 @@ import ast
 from kvstatic.core import Repo, Report, ModelError, AnchorError, norm
 from kvstatic import oracle
 from kvstatic.mvlogic import Logic
-from kvstatic.tt import LaneViolation
+from kvstatic.tt import LaneViolation, ShapeViolation
 from kvstatic.astutil import find_all, attr_chain, is_name, call_name, body_no_doc, walk_no_nested_funcs
 
 CH = '0X-1PRFN'
@@ -47,6 +47,10 @@ def op_tables(rep, lg: Logic, rid='C12.bp'):
                     res0, ret_out, steps = lg.bp_table(fname, k, nplanes, junk=0)
                     res1, _, _ = lg.bp_table(fname, k, nplanes, junk=1)
                     res2, _, _ = lg.bp_table(fname, k, nplanes, junk=2)
+                except ShapeViolation as e:
+                    rep.ob(rid, f'{fname}/{k}', False)
+                    rep.violate(rid.split('.')[0] + '.broadcast', mod, f, e.node if e.node is not None else fname, f'{fname}: {e}', node=e.node or f)
+                    continue
                 except LaneViolation as e:
                     rep.ob(rid, f'{fname}/{k}', False)
                     rep.violate('C12.lanewise', mod, f, e.node if e.node is not None else fname, f'{fname}: {e}', node=e.node or f)
@@ -76,6 +80,10 @@ def mv_tables(rep, lg: Logic, tabs):
                 res0, steps = lg.mv_table(fname, k, junk=0)
                 res1, _ = lg.mv_table(fname, k, junk=1)
                 res2, _ = lg.mv_table(fname, k, junk=2)
+            except ShapeViolation as e:
+                rep.ob('C12.mv', f'{fname}/{k}', False)
+                rep.violate('C12.broadcast', mod, f, e.node if e.node is not None else fname, f'{fname}: {e}', node=e.node or f)
+                continue
             except LaneViolation as e:
                 rep.ob('C12.mv', f'{fname}/{k}', False)
                 rep.violate('C12.lanewise', mod, f, e.node if e.node is not None else fname, f'{fname}: {e}', node=e.node or f)
@@ -228,6 +236,7 @@ def run(rep: Report, repo: Repo):
     rep.rule('C12.mv', 'array-based worker equals the algebra oracle on all 8^k operand tuples, k = 1..4')
     rep.rule('C12.agree', 'array-based and bit-parallel operators agree row by row')
     rep.rule('C12.lanewise', 'operators use only element-wise / whole-plane primitives (no reduction, reshape, axis-specific index, lane-dependent constant)')
+    rep.rule('C12.broadcast', 'no in-place update of an array that has the shape of fewer operands than the value (shape-provenance domain): operands may broadcast in any order')
     tabs, nops = op_tables(rep, lg)
     nmv = mv_tables(rep, lg, tabs)
     rep.floor('bit-parallel operator tables', nops, 26)
